@@ -493,7 +493,7 @@ def run(mon: Monitor, tier: str, seed: int, shard: int, nshards: int) -> None:
             mon.case = {"kind": "history", "n": h}
             history(mon, rng, codes, ref, 400 if q else 2500)
         mon.case = {"kind": "churn"}
-        churn(mon, rng, codes[: (60 if q else 300)], 220 if q else 3000)
+        churn(mon, rng, codes[: (120 if q else 300)], 420 if q else 3000)
         mon.case = {"kind": "lookalikes"}
         lookalikes(mon, rng, 40 if q else 400)
         mon.case = None
